@@ -149,7 +149,7 @@ func validateMessageDeclarations(file *filedesc.File, ms []filedesc.Message, mds
 					return errors.New("message field %q under proto3 optional semantics must be within a single element oneof", f.FullName())
 				}
 			}
-			if f.IsPacked() && !isPackable(f) {
+			if fd.GetOptions().GetPacked() && !isPackable(f) {
 				return errors.New("message field %q is not packable", f.FullName())
 			}
 			if err := checkValidGroup(file, f); err != nil {
@@ -245,7 +245,7 @@ func validateExtensionDeclarations(f *filedesc.File, xs []filedesc.Extension, xd
 				return errors.New("extension field %q has an invalid number: %d", x.FullName(), x.Number())
 			}
 		}
-		if x.IsPacked() && !isPackable(x) {
+		if xd.GetOptions().GetPacked() && !isPackable(x) {
 			return errors.New("extension field %q is not packable", x.FullName())
 		}
 		if err := checkValidGroup(f, x); err != nil {
